@@ -1,8 +1,11 @@
 from check import run_diff_property
+import lib
 
 CFG = dict(
-    streams=[('h2marshal', 3000, 60000), ('h2fp', 400, 6000, 'http2test')],
-    oracle_ops={'h2fp'},
+    streams=[('h2marshal', 3000, 60000), ('h2fp', 400, 6000, 'http2test'), ('e2e', 150, 2500)],
+    oracle_ops={'h2fp', 'e2e'},
+    twophase_ops={'e2e'},
+    project={'e2e': lib.proj_e2e({'h2', 'st'})},
     http2_ops={'h2fp', 'h2fpm'},
     rule=("(a) Marshal(n) on generated records (settings incl. unknown ids and 32-bit extremes, WU incl. 0/one digit/2^32-1, "
           "0..40 priorities with weight 0/255, header names incl. ':', '', ':|') for every limit class "
